@@ -253,13 +253,18 @@ def session_cases(tier, rng):
              (['out', True, 's'], 'base', 's'), (['out', False, '../base2/s'], 'base', '../base2/s'), (['base', False, '../out/s.tex'], 'base', '../out/s.tex'),
              (['out/base', True, 'a'], 'base', 'a'), (['out/base', True, 'a'], 'base2', 'a'), (['base', True, 'a'], 'base2', 'a'),
              (['out', True, 't'], 'base2', 't'), (['base', True, 'sub/d'], 'base2', 'sub/d'), (['base2', True, 's'], None, 's')]
+    fixed = fixed + [([pd, False, pn], D, nm) for ([pd, _ps, pn], D, nm) in fixed if _ps]      # the earlier life also in non-strict mode
     for pre, D, nm in fixed:
         for via in ('read', 'l2t'):
             for mac in ('input', 'include'):
-                c = {'lay': K, 'dir': D, 'strict': True, 'name': nm, 'mac': mac, 'pre': [pre + [via]]}
+                c = {'lay': K, 'dir': D, 'strict': True, 'name': nm, 'mac': mac, 'pre': [pre + [via]], 'omit_strict': (mac == 'include')}
                 if D is None:
                     c['nodir'] = 'none'
                 yield c
+    for nm in ['../base2/s', '../out/s.tex', '{R}/out/s.tex', 'lo', 'dout/s', '../Base/s', 'a', 'sub/d']:
+        for pd in ('base2', 'out', 'base'):
+            for mac in ('input', 'include'):
+                yield {'lay': K, 'dir': 'base', 'strict': True, 'name': nm, 'mac': mac, 'pre': [[pd, False, nm, 'read']], 'omit_strict': True}
     n = 250 if quick else 6000
     for _ in range(n):
         if rng.random() < 0.5:
@@ -284,7 +289,10 @@ def session_cases(tier, rng):
             pd = rng.choice(pre_dirs) if (pre_dirs and rng.random() < 0.7) else rng.choice(dirs)
             pn = nm if rng.random() < 0.75 else rand_names(rng, lay, dirs, files, links, pd, 1)[0]
             pre.append([pd, rng.random() < 0.6, pn, rng.choice(['read', 'read', 'l2t'])])
-        yield {'lay': lay, 'dir': D, 'strict': rng.random() < 0.85, 'name': nm, 'mac': rng.choice(['input', 'include']), 'pre': pre}
+        c = {'lay': lay, 'dir': D, 'strict': rng.random() < 0.85, 'name': nm, 'mac': rng.choice(['input', 'include']), 'pre': pre}
+        if c['strict'] and rng.random() < 0.5:
+            c['omit_strict'] = True       # the last call leaves the keyword out: strict by default, whatever was set before
+        yield c
 
 # ---------------------------------------------------------------- building real layouts
 
@@ -499,7 +507,10 @@ def _run(c, top, root, h, LatexNodes2Text):
         return {'out': '%s %s' % (cls, show_str(ret)), 'fail': fail, 'sig': 'nodir'}
 
     dirpath = root + '/' + c['dir']
-    l2t.set_tex_input_directory(dirpath, strict_input=strict)
+    if strict and c.get('omit_strict'):
+        l2t.set_tex_input_directory(dirpath)          # strict mode is the documented default of every call
+    else:
+        l2t.set_tex_input_directory(dirpath, strict_input=strict)
     ret = l2t.read_input_file(name)
     cls = _classify(h.msgs, False)
     out = '%s %s' % (cls, show_str(ret))
